@@ -2,6 +2,7 @@ import Gaftools.Drv.Sort
 import Gaftools.Drv.Gaf
 import Gaftools.Drv.Gfa
 import Gaftools.Drv.Realign
+import Gaftools.Drv.Conv
 /-! The correspondence driver: one JSON object per line in, one per line out. -/
 open Lean Gaftools.Drv
 
@@ -20,6 +21,9 @@ def dispatch (op : String) (j : Json) : Except String Json :=
   | "realign.run" => Realign.opRun j
   | "realign.groups" => Realign.opGroups j
   | "realign.record" => RealignRec.opRecord j
+  | "conv.file" => Conv.opFile j
+  | "view.index" => View.opIndex j
+  | "view.select" => View.opSelect j
   | _ => throw s!"unknown op {op}"
 
 partial def loop (h : IO.FS.Stream) (out : IO.FS.Stream) : IO Unit := do
